@@ -7,7 +7,11 @@ delimiters); Props/C08.v proves the refutation and the check tolerates exactly t
 
 Tie: as C07 (recorded sha1 chunk sequence == model stream) on the enumerated structures.
 Search: exhaustive pair comparison (hash-bucketed) over all invocation structures up to a node
-bound, a directed corpus of the pairs the property names, and end-to-end can_load checks."""
+bound and over families of easily confused invocations (arrays of many dtypes - structured, sub-array,
+byte order, kind, item size - over the same buffer and shapes; tasklet chains of depth 1..3 incl.
+return_tuple / iteratetask and their consumers; containers of all six kinds; NoHash / CustomHash
+wrappers, which are exempt by design), a directed corpus of the pairs the property names, and
+end-to-end can_load checks."""
 import itertools
 import json
 
@@ -18,10 +22,14 @@ from . import jugrun
 EVIDENCE = dict(
     level='proof',
     rule='cases = all task invocations f/g(positional..., a=, b=) over leaves {0,1,"a"} and nested tuples/lists/dicts up to the node bound '
-         '(exhaustive) + a directed corpus of differing pairs; every pair of distinct invocations with equal identifier is classified in coqc; '
+         '(exhaustive) + families of confusable invocations (arrays of ~all dtype variants over one buffer, tasklet chains of depth <= 3 and '
+         'their consumers, containers of all six kinds, NoHash/CustomHash wrappers) + a directed corpus of differing pairs; all are hashed by '
+         'the real code and bucketed by identifier; every pair of distinct invocations with equal identifier is classified in coqc; '
          'non-trivial = invocation with >= 2 nodes; distinct = distinct canonical specs',
-    explanation='Coq: C08_refuted (the injectivity statement is false of the faithful model) + classification of every observed collision '
-                'as delimiter-erasure (known finding) or not (violation); tie: real sha1 chunk sequence == model stream',
+    explanation='Coq: C08_refuted (the injectivity statement is false of the faithful model); C08_dstream_injective / C08_stream_erases / '
+                'C08_partial (the delimited stream is an injective prefix code, the real stream is its erasure, so identifiers collide only '
+                'by disagreeing on container extents; A1/A2 explicit) + classification of every observed collision as delimiter-erasure '
+                '(known finding) or not (violation); tie: real sha1 chunk sequence == model stream, every value lies in the theorems\' universe',
 )
 
 LEAFS = [['leaf', '0'], ['leaf', '1'], ['leaf', "'a'"]]
@@ -78,18 +86,69 @@ def invocations(maxnodes):
     return out
 
 
+_DTYPES = []
+
+
+def _dtype_key(dt):
+    """index of the first dtype seen that compares equal (numpy's own notion of 'the same dtype')"""
+    for i, d in enumerate(_DTYPES):
+        if d == dt:
+            return i
+    _DTYPES.append(dt)
+    return len(_DTYPES) - 1
+
+
 def canon(spec):
-    """canonical form: equal Python invocations have equal canon()"""
+    """canonical form: equal Python invocations have equal canon().  By design NoHash(x) is the same argument for
+    every x, CustomHash(x, h) is identified by h(x) alone, iteratetask(t, n)[i] IS t[i], and an array is its dtype,
+    shape and C-order bytes."""
     k = spec[0]
     if k == 'dict':
         return ['dict', sorted([[canon(a), canon(b)] for a, b in spec[1]], key=json.dumps)]
     if k in ('set', 'frozenset'):
-        return [k, sorted([canon(x) for x in spec[1]], key=json.dumps)]
+        out = []
+        for c in sorted([canon(x) for x in spec[1]], key=json.dumps):
+            if c not in out:
+                out.append(c)
+        return [k, out]
     if k in ('list', 'tuple'):
         return [k, [canon(x) for x in spec[1]]]
     if k == 'task':
         return ['task', spec[1], [canon(a) for a in spec[2]], sorted([[kw, canon(v)] for kw, v in spec[3]], key=json.dumps)]
+    if k == 'objarray':
+        return ['objarray', spec[1], [canon(x) for x in spec[2]]]
+    if k in ('array', 'rawarray'):
+        import numpy as np
+        from .hashworker import np_descr
+        if k == 'array':
+            a = np.array(spec[3], dtype=spec[1]).reshape(spec[2])
+        else:
+            a = np.frombuffer(bytes.fromhex(spec[3]), dtype=np.dtype(np_descr(spec[1]))).reshape(spec[2])
+        return ['ndarray', _dtype_key(a.dtype), list(a.shape), a.tobytes().hex()]
+    if k == 'getitem':
+        return ['getitem', canon(spec[1]), canon(spec[2])]
+    if k == 'iter':
+        return ['getitem', canon(spec[1]), ['leaf', str(spec[2])]]
+    if k in ('funtasklet', 'lambda'):
+        return [k, canon(spec[1]), spec[2]]
+    if k == 'rettuple':
+        return [k, canon(spec[1]), spec[2], spec[3]]
+    if k == 'nohash':
+        return ['nohash']
+    if k == 'custom':
+        return ['custom', spec[1]]
+    if k == 'identity':
+        return ['identity', canon(spec[1])]
     return spec
+
+
+def has_raw(spec):
+    """does the spec contain a NoHash / CustomHash wrapper (outside the universe of the C08 theorems)?"""
+    if isinstance(spec, list):
+        if spec and spec[0] in ('nohash', 'custom'):
+            return True
+        return any(has_raw(x) for x in spec)
+    return False
 
 
 T = lambda fn, pos=(), kw=(): ['task', fn, list(pos), [list(x) for x in kw]]
@@ -138,16 +197,208 @@ DIRECTED = [
 ]
 
 
+# ---------------------------------------------------------------------------------------------------
+# families of easily confused invocations.  Every member is a DIFFERENT invocation unless canon() says
+# otherwise; all members go into the same identifier buckets as the enumerated structures.
+FMT = {1: ['|i1', '|u1', '|b1', '|S1', '|V1'],
+       2: ['<i2', '>i2', '<u2', '>u2', '<f2', '>f2', '|S2', '|V2'],
+       4: ['<i4', '>i4', '<u4', '>u4', '<f4', '>f4', '|S4', '|V4', '<U1', '>U1'],
+       8: ['<i8', '>i8', '<u8', '>u8', '<f8', '>f8', '<c8', '>c8', '|S8', '|V8', '<U2', '>U2',
+           '<M8[s]', '<M8[ms]', '>M8[s]', '<M8[D]', '<m8[s]', '<m8[ms]', '>m8[s]'],
+       16: ['<c16', '>c16', '|S16', '|V16', '<U4', '>U4']}
+BUFLEN = 16
+
+
+def field_formats(size):
+    """what one field of `size` bytes can be: [fmt] or [fmt, subshape] (sub-array field)"""
+    out = [[f] for f in FMT.get(size, [])]
+    for s, base in ((1, '|i1'), (2, '<i2'), (4, '<i4'), (4, '<f4'), (8, '<f8')):
+        if size % s == 0 and size // s > 1:
+            n = size // s
+            out.append([base, [n]])
+            out.append([base, [1, n]])
+            out.append([base, [n, 1]])
+            for a in range(2, n):
+                if n % a == 0:
+                    out.append([base, [a, n // a]])
+    return out
+
+
+def struct_descrs(size, rng, nrandom):
+    """structured dtype descriptors of item size `size`: a systematic core (renamed / permuted / re-typed fields,
+    sub-array fields, nested records, split and merged fields) and random ones"""
+    out = []
+    h, q = size // 2, size // 4
+    for nm in ('x', 'y'):
+        for f in field_formats(size):
+            out.append([[nm] + f])
+    if h >= 1:
+        iH, fH, uH, bH = {1: ('|i1', '|b1', '|u1', '|i1'), 2: ('<i2', '<f2', '<u2', '>i2'), 4: ('<i4', '<f4', '<u4', '>i4'),
+                          8: ('<i8', '<f8', '<u8', '>i8')}[h]
+        for a, b in ((iH, fH), (fH, iH), (iH, iH), (bH, fH), (uH, fH), (iH, uH), ('|S%d' % h, '|V%d' % h), ('|V%d' % h, '|S%d' % h)):
+            for n1, n2 in (('x', 'y'), ('y', 'x'), ('a', 'b')):
+                out.append([[n1, a], [n2, b]])
+        out.append([['p', [['x', iH], ['y', iH]]]])
+        out.append([['p', [['x', iH]]], ['q', [['y', iH]]]])
+        out.append([['p', [['x', iH]]], ['y', iH]])
+        out.append([['x', iH, [1]], ['y', iH]])
+        if q >= 1:
+            iQ = {1: '|i1', 2: '<i2', 4: '<i4'}[q]
+            out.append([['x', iQ], ['y', iQ], ['z', iH]])
+            out.append([['x', iH], ['y', iQ], ['z', iQ]])
+            out.append([['x', iQ, [2]], ['y', iH]])
+            out.append([['x', iQ], ['y', iQ], ['z', iQ], ['w', iQ]])
+    names = ['x', 'y', 'z', 'a', 'b']
+    for _ in range(nrandom):
+        parts, left = [], size
+        while left > 0 and len(parts) < 4:
+            c = rng.choice([c for c in (1, 2, 4, 8, 16) if c <= left])
+            parts.append(c)
+            left -= c
+        if left:
+            parts[-1] += left
+        if any(not field_formats(c) for c in parts):
+            continue
+        nm = rng.sample(names, len(parts))
+        out.append([[n] + rng.choice(field_formats(c)) for n, c in zip(nm, parts)])
+    return out
+
+
+def array_family(ck):
+    rng = ck.rng
+    bufs = [bytes(rng.randrange(256) for _ in range(BUFLEN)).hex(), bytes(BUFLEN).hex()]
+    descrs = []
+    for size in (1, 2, 4, 8, 16):
+        descrs += [(size, f) for f in FMT[size]]
+        if size >= 2:
+            descrs += [(size, d) for d in struct_descrs(size, rng, ck.n(12, 120))]
+    out = []
+    for k, (size, d) in enumerate(descrs):
+        n = BUFLEN // size
+        shapes = [[n]]
+        if n > 1:
+            shapes += [[1, n], [n, 1]]
+        if n > 2 and n % 2 == 0:
+            shapes += [[2, n // 2]]
+        if isinstance(d, list) and ck.tier == 'quick':
+            shapes = shapes[:2] if k % 3 else shapes[:3]
+        for sh in shapes:
+            out.append(T('f', [['rawarray', d, sh, bufs[0]]]))
+        if k % 4 == 0:
+            out.append(T('f', [['rawarray', d, [n], bufs[1]]]))
+    return out
+
+
+def apply_op(base, op):
+    return [op[0], base] + list(op[1:])
+
+
+def chain_family(ck):
+    """tasklet chains base.op1.op2.. of depth 1..3 (all of depth <= 2 over the core operations, a sample beyond) and the
+    tasks that consume them: chains differing in an inner operation, in the last one, or in length must all differ"""
+    rng = ck.rng
+    core = [['getitem', L('0')], ['getitem', L('1')], ['getitem', L("'a'")], ['funtasklet', 'm1'], ['lambda', 'la'],
+            ['rettuple', 0, 2], ['rettuple', 1, 2]]
+    extra = [['iter', 1, 3], ['iter', 0, 2], ['getitem', L('slice(0, 1, None)')], ['lambda', 'lb'], ['rettuple', 0, 3],
+             ['funtasklet', 'f'], ['getitem', T('h')], ['getitem', L('-1')]]
+    seqs = [[a] for a in core + extra] + [[a, b] for a in core for b in core]
+    allops = core + extra
+    for _ in range(ck.n(40, 400)):
+        seqs.append([rng.choice(allops), rng.choice(allops)])
+    for _ in range(ck.n(80, 800)):
+        seqs.append([rng.choice(allops), rng.choice(allops), rng.choice(core)])
+    out = []
+    for base in (T('g'), T('g', [L('1')])):
+        for sq in seqs:
+            c = base
+            for op in sq:
+                c = apply_op(c, op)
+            out.append(c)
+            out.append(T('f', [c]))
+    for sq in seqs[:len(core + extra) + 20]:
+        c = T('g')
+        for op in sq:
+            c = apply_op(c, op)
+        out.append(T('f', [], [('a', c)]))
+        out.append(T('f', [['list', [c]]]))
+    return out
+
+
+MLEAF = [['leaf', '1'], ['leaf', "'a'"]]
+
+
+def hashable(spec):
+    return spec[0] == 'leaf' or (spec[0] in ('tuple', 'frozenset') and all(hashable(x) for x in spec[1]))
+
+
+def mixed_values(n, memo={}):
+    """all values with exactly n nodes over the six container kinds (list, tuple, set, frozenset, dict, object array)"""
+    if n in memo:
+        return memo[n]
+    out = []
+    if n == 1:
+        out = list(MLEAF) + [['list', []], ['tuple', []], ['set', []], ['frozenset', []], ['dict', []], ['objarray', [0], []]]
+    elif n > 1:
+        for parts in compositions(n - 1):
+            for combo in itertools.product(*[mixed_values(p) for p in parts]):
+                combo = list(combo)
+                out.append(['list', combo])
+                out.append(['tuple', combo])
+                out.append(['objarray', [len(combo)], combo])
+                if all(hashable(x) for x in combo) and len(set(json.dumps(canon(x)) for x in combo)) == len(combo):
+                    out.append(['set', combo])
+                    out.append(['frozenset', combo])
+                out.append(['dict', [[['leaf', kname], v] for kname, v in zip(("'a'", "'b'", "'c'"), combo)]])
+    memo[n] = out
+    return out
+
+
+def mixed_family(ck):
+    out = []
+    for total in range(0, ck.n(3, 4) + 1):
+        for parts in ([()] if total == 0 else compositions(total)):
+            for combo in itertools.product(*[mixed_values(p) for p in parts]):
+                out.append(T('f', list(combo)))
+    return out
+
+
+def exempt_family(ck):
+    """NoHash(x) / CustomHash(x, h): by design the identifier does not depend on x - such pairs must NOT be reported;
+    everything else about the invocation still must matter"""
+    xs = [L('1'), L('2'), ['list', [L('1'), L('2')]]]
+    out = []
+    for x in xs:
+        n = ['nohash', x]
+        out += [T('f', [n]), T('f', [n, L('2')]), T('f', [L('2'), n]), T('f', [], [('a', n)]), T('f', [], [('b', n)]), T('g', [n]),
+                T('f', [['list', [n]]]), T('f', [['tuple', [n]]]), T('f', [n, n]), T('f', [['getitem', T('g', [n]), L('0')]])]
+    for b in ("b'abc'", "b'abd'", "b'0123456789abcdef0123456789abcdef01234567'"):
+        for x in xs[:2]:
+            c = ['custom', b, x]
+            out += [T('f', [c]), T('f', [], [('a', c)]), T('g', [c]), T('f', [['list', [c]]]), T('f', [c, L('2')])]
+    out += [T('f', [L("b'nohash'")]), T('f', [L("b'abc'")]), T('f', [L("'nohash'")])]
+    return out
+
+
+def families(ck):
+    fams = [('arrays', array_family(ck)), ('chains', chain_family(ck)), ('containers', mixed_family(ck)), ('exempt', exempt_family(ck))]
+    out = []
+    for name, specs in fams:
+        ck.count('family:' + name, len(specs))
+        out += specs
+    return out
+
+
 def run(ck):
     ck.prove()
-    ck.assumptions = ['A1: SHA-1 is treated as collision-free (digests symbolic in the model)',
-                      'known finding D1 (delimiter erasure) is tolerated ONLY when the model reproduces the collision and dstream separates it']
+    ck.assumptions = ['A1: SHA-1 is treated as collision-free (digests symbolic in the model); A2: the byte rendering of a chunk sequence is '
+                      'uniquely decodable (pickle frames self-delimiting, digests of fixed length) - both explicit premises of the Coq theorems',
+                      'known finding D1 (delimiter erasure) is tolerated ONLY when the model reproduces the collision and dstream separates it',
+                      'NoHash(x) / CustomHash(x, h) are exempt by design: the identifier depends on b"nohash" / h(x) only']
     maxnodes = ck.n(3, 4)
-    invs = invocations(maxnodes)
-    # thin out deterministically in quick mode to bound the run time, keeping all small ones
+    # the pool: enumerated structures + families, without exact duplicates
     specs, seen = [], set()
-    for s in invs:
-        c = json.dumps(canon(s))
+    for s in invocations(maxnodes) + families(ck):
+        c = json.dumps(s)
         if c not in seen:
             seen.add(c)
             specs.append(s)
@@ -159,24 +410,21 @@ def run(ck):
     res = hashgen.run_workers(allspecs, [1], 'c08')[0]
     errors = [(i, r['error']) for i, r in enumerate(res) if r.get('error')]
     if errors:
-        ck.broken.append('worker could not hash %d specs, e.g. %r' % (len(errors), errors[:2]))
-    # ---- tie: stream correspondence on the enumerated structures (sampled in quick) + all directed
-    idxs = [i for i in range(len(allspecs)) if not res[i].get('error')]
-    tie_idx = idxs if ck.tier == 'thorough' else ([i for i in idxs if i % 7 == 0 or i >= nd])
-    cases = [res[i]['case'] for i in tie_idx]
-    fails = ck.cases('hash_stream', 'From JugV Require Import Model.Hash.', 'pv * list tok',
-                     'fun c => toks_eqb (hash_one_stream false (fst c)) (snd c)', cases, shard=300,
-                     preamble='Local Open Scope positive_scope.')
-    for j in (fails or []):
-        ck.violation({'kind': 'correspondence', 'what': 'sha1 chunk sequence of the real code differs from the model stream',
-                      'spec': allspecs[tie_idx[j]], 'coq_case': cases[j][:3000]})
+        ck.broken.append('worker could not hash %d specs, e.g. %r' % (len(errors), [(allspecs[i], e) for i, e in errors[:2]]))
+    canons = {}
+
+    def cn(i):
+        if i not in canons:
+            canons[i] = json.dumps(canon(allspecs[i]))
+        return canons[i]
+
     # ---- search 1: exhaustive pair comparison, hash-bucketed
     buckets = {}
     for i in range(nd):
         if res[i].get('error'):
             continue
         buckets.setdefault(res[i]['digest'], []).append(i)
-        ck.distinct(canon(allspecs[i]), nontrivial=len(json.dumps(allspecs[i])) > 30)
+        ck.distinct(cn(i), nontrivial=len(json.dumps(allspecs[i])) > 30)
     ck.count('enumerated_invocations', nd)
     ck.case_total += nd + 2 * len(DIRECTED)
     pairs = []
@@ -184,6 +432,10 @@ def run(ck):
         if len(members) > 1:
             ck.count('collision_groups')
             for a, b in itertools.combinations(members, 2):
+                if cn(a) == cn(b):
+                    # the same invocation written in two ways (NoHash / CustomHash payloads, iteratetask vs indexing)
+                    ck.count('same_invocation_pairs(exempt)')
+                    continue
                 pairs.append((a, b))
     # ---- search 2: the directed corpus
     for k, (name, a, b) in enumerate(DIRECTED):
@@ -217,6 +469,25 @@ def run(ck):
     ck.sample({'directed_pair': DIRECTED[0][0]})
     # ---- search 3: end to end - run one task, ask whether a different one "can load"
     e2e(ck)
+    # ---- tie: stream correspondence on the pool (sampled in quick) + all directed
+    idxs = [i for i in range(len(allspecs)) if not res[i].get('error')]
+    tie_idx = idxs if ck.tier == 'thorough' else ([i for i in idxs if i % 7 == 0 or i >= nd])
+    cases = [res[i]['case'] for i in tie_idx]
+    fails = ck.cases('hash_stream', 'From JugV Require Import Model.Hash.', 'pv * list tok',
+                     'fun c => toks_eqb (hash_one_stream false (fst c)) (snd c)', cases, shard=300,
+                     preamble='Local Open Scope positive_scope.')
+    for j in (fails or []):
+        ck.violation({'kind': 'correspondence', 'what': 'sha1 chunk sequence of the real code differs from the model stream',
+                      'spec': allspecs[tie_idx[j]], 'coq_case': cases[j][:3000]})
+    # ---- tie: every realised value without NoHash/CustomHash lies in the universe of the C08 theorems (wfb)
+    uni_idx = [i for i in tie_idx if not has_raw(allspecs[i])]
+    ucases = ['(%s, [%s])' % (res[i]['pv'], '; '.join(str(d) for d in res[i].get('objdt', []))) for i in uni_idx]
+    ufails = ck.cases('universe', 'From JugV Require Import Model.Hash.', 'pv * list positive',
+                      'fun c => wfb (fun d => existsb (Pos.eqb d) (snd c)) (fst c)', ucases, shard=300,
+                      preamble='Local Open Scope positive_scope.')
+    for j in (ufails or []):
+        ck.violation({'kind': 'correspondence', 'what': 'a realised invocation lies outside the universe (wfb) of the C08 theorems',
+                      'spec': allspecs[uni_idx[j]], 'coq_case': ucases[j][:3000]})
 
 
 def e2e(ck):
